@@ -330,6 +330,36 @@ def relations(res):
         res.fail("tolerance:a tight request after a coarse one on the same spectral density",
                  {"sequence": "eta_function(t, epsrel=1e-3); eta_function(t, epsrel=1e-11)",
                   "alpha": 0.3, "cutoff": 30.0, "relative_error_vs_closed_form": worst})
+    # (e) the model only knows alpha * (eigenvalue differences)^2: a very weak bath (alpha = 1e-7)
+    #     coupled through an operator of large norm (eigenvalues +-1000) decoheres like any other
+    #     (cells that are tiny in absolute terms must still be integrated to the RELATIVE tolerance);
+    #     closed form as in (d), times far beyond 1/cutoff (oscillatory frequency integrands)
+    al, wc, dts, ns = 1e-7, 73.0, 0.1, 6
+    weak = oqupy.PowerLawSD(alpha=al, zeta=1.0, cutoff=wc, cutoff_type="exponential", temperature=0.0)
+    big = np.diag([1000.0, -1000.0]).astype(complex)
+    hq = np.diag([0.3, -0.3]).astype(complex)
+    r0 = np.array([[0.5, 0.5], [0.5, 0.5]], dtype=complex)
+    parw = oqupy.TempoParameters(dt=dts, epsrel=1e-9, dkmax=None)
+    tw = oqupy.Tempo(oqupy.System(hq), oqupy.Bath(big, weak), parw, r0, start_time=0.0)
+    got_t = np.array(tw.compute(ns * dts + dts / 4, progress_type="silent").states)
+    ptw = oqupy.pt_tempo_compute(bath=oqupy.Bath(big, weak), start_time=0.0, end_time=ns * dts + dts / 4,
+                                 parameters=parw, progress_type="silent")
+    got_p = np.array(oqupy.compute_dynamics(oqupy.System(hq), initial_state=r0, process_tensor=ptw,
+                                            start_time=0.0, progress_type="silent").states)
+    worst_w = 0.0
+    for k in range(ns + 1):
+        tk = k * dts
+        eta = 2 * al * (np.log(1 + 1j * wc * tk) - 1j * wc * tk)
+        c01 = 0.5 * np.exp(-0.6j * tk) * np.exp(-(2000.0 ** 2) * eta.real)
+        for g in (got_t, got_p):
+            worst_w = max(worst_w, abs(g[k][0, 1] - c01), abs(g[k][0, 0] - 0.5), abs(g[k][1, 1] - 0.5))
+    res.case("relation:weak-bath-large-coupling-norm", True, {"alpha": al, "eigenvalues": [1000, -1000],
+                                                              "deviation_from_closed_form": float(worst_w)})
+    if worst_w > 1e-6:
+        res.fail("scale:alpha=1e-7 with coupling eigenvalues +-1000 (ohmic, exponential cutoff, T=0)",
+                 {"alpha": al, "cutoff": wc, "dt": dts, "steps": ns, "epsrel": 1e-9,
+                  "coupling_eigenvalues": [1000.0, -1000.0],
+                  "deviation_of_Tempo_or_PT_from_closed_form": float(worst_w)})
     again = run(0.0, 0.1, sysm, 8)            # the System object of the first run, half the step
     fresh = run(0.0, 0.1, oqupy.System(h), 8)
     err = float(np.abs(again - fresh).max())
